@@ -31,8 +31,9 @@ type devEntry struct {
 }
 type kekEntry struct {
 	label string
-	kek   []byte
+	kek   []byte // pristine value: printed into the case, used by the oracles
 	err   bool
+	live  []byte // the slice the callback hands out (the key store's own storage, as a map-backed callback does)
 }
 type asEntry struct {
 	eui   [8]byte
@@ -71,12 +72,16 @@ func (t *table) handler() http.Handler {
 			return joinserver.DeviceKeys{}, joinserver.ErrDevEUINotFound
 		},
 		GetKEKByLabelFunc: func(label string) ([]byte, error) {
-			for _, k := range t.keks {
+			for i := range t.keks {
+				k := &t.keks[i]
 				if k.label == label {
 					if k.err {
 						return nil, errBackend
 					}
-					return append([]byte{}, k.kek...), nil
+					if k.live == nil {
+						k.live = append([]byte{}, k.kek...)
+					}
+					return k.live, nil // not a copy: a handler that writes into it corrupts the key store
 				}
 			}
 			return nil, nil
@@ -112,6 +117,16 @@ func (t *table) handler() http.Handler {
 		panic(err)
 	}
 	return h
+}
+
+// mutated reports a KEK whose storage the handler has written to.
+func (t *table) mutated() string {
+	for _, k := range t.keks {
+		if k.live != nil && !bytes.Equal(k.live, k.kek) {
+			return fmt.Sprintf("KEK stored under label %q was %x before the request and is %x after it", k.label, k.kek, k.live)
+		}
+	}
+	return ""
 }
 
 func (t *table) kek(label string) []byte {
